@@ -1,25 +1,27 @@
-import PdshVerif.Dsh.TimedNoHang
+import PdshVerif.Dsh.TimedTeardown
 import PdshVerif.Dsh.FanLive
 
-/-! # Timed LTS: with both timeouts set, virtual time is bounded (potential argument) -/
+/-! # Timed LTS: with the timeouts set and every command ending, virtual time is bounded (potential argument) -/
 namespace PdshVerif.Dsh.Timed
 open PdshVerif.Dsh
 
-/-- seconds a connected target may keep the run busy: the command timeout plus one watchdog period, or, without
-    a command timeout, until the scripted end of its streams -/
+/-- seconds a connected target may keep the run busy reading: the command timeout plus one watchdog period, or,
+    without a command timeout, until the scripted end of its streams -/
 def readB (c : Cfg) (sc : Script) : Nat := if 0 < c.ut then c.ut + WDOG_POLL else lastT c sc
 
-/-- seconds target `h` may still keep the run busy (`R` = its `readB`) -/
-def rem (c : Cfg) (R : Nat) (now : Nat) (h : Host) : Nat :=
+/-- seconds target `h` may still keep the run busy (`R` = its `readB`, `K` = the teardown allowance of `Td`) -/
+def rem (c : Cfg) (R K : Nat) (now : Nat) (h : Host) : Nat :=
   match h.ph with
-  | .new => (c.ct + WDOG_POLL) + R
-  | .rcmd => (c.ct + WDOG_POLL) + R
-  | .connecting => (h.start + (c.ct + WDOG_POLL) - now) + R
-  | .reading => h.conn + R - now
-  | .finished => 0
+  | .new => (c.ct + WDOG_POLL) + R + K
+  | .rcmd => (c.ct + WDOG_POLL) + R + K
+  | .connecting => (h.start + (c.ct + WDOG_POLL) - now) + R + K
+  | .reading => (h.conn + R - now) + K
+  | .finished => match h.death with
+    | some d => d - now
+    | none => 0
 
-def potential (s : St) : Nat :=
-  ((List.range s.hs.length).map fun j => rem s.cfg (readB s.cfg (s.script j)) s.now (s.host j)).sum
+def potential (K : Nat) (s : St) : Nat :=
+  ((List.range s.hs.length).map fun j => rem s.cfg (readB s.cfg (s.script j)) K s.now (s.host j)).sum
 
 theorem sum_range_le {n : Nat} {a b : Nat → Nat} (h : ∀ j, j < n → a j ≤ b j) :
     ((List.range n).map a).sum ≤ ((List.range n).map b).sum := by
@@ -50,14 +52,36 @@ theorem sum_range_const (n x : Nat) : ((List.range n).map fun _ => x).sum = n * 
   | zero => simp
   | succ k ih => rw [List.range_succ, List.map_append, List.sum_append, ih]; simp [Nat.succ_mul]
 
+/-- the command of a reading target is gone within the allowance once the target has been given up on -/
+theorem rem_timeout {c : Cfg} {sc : Script} {R K now : Nat} {x x' : Host} (hx : MInv sc K x) (hph : x.ph = .reading)
+    (hcl : x.conn ≤ now) (hf : x'.ph = .finished) (hd : x'.death = termDeath x.grace now x.death) :
+    rem c R K now x' ≤ rem c R K now x := by
+  simp only [rem, hf, hph, hd]
+  rcases hx.rd hph with ⟨d, hd', hle⟩ | ⟨hn, _, _, k, hk, hkK⟩
+  · rw [hd']
+    cases hg : x.grace with
+    | none => simp only [termDeath]; omega
+    | some k => simp only [termDeath]; omega
+  · rw [hn, hk]; simp only [termDeath]; omega
+
+theorem rem_round {c : Cfg} {sc : Script} {R K now : Nat} {x x' : Host} (hx : MInv sc K x) (hph : x.ph = .reading)
+    (hcl : x.conn ≤ now) (hc : x'.conn = x.conn) (hd : x'.death = x.death)
+    (hp : x'.ph = x.ph ∨ x'.ph = .finished) : rem c R K now x' ≤ rem c R K now x := by
+  rcases hp with hp | hp
+  · simp only [rem, hp, hph, hc]; exact Nat.le_refl _
+  · simp only [rem, hp, hph, hd]
+    rcases hx.rd hph with ⟨d, hd', hle⟩ | ⟨hn, _⟩
+    · rw [hd']; simp only []; omega
+    · rw [hn]; simp only []; omega
+
 /-- a step of the target itself never increases what it may still cost -/
-theorem rem_hostStep {c : Cfg} {sc : Script} {now wake : Nat} {h : Host} (R : Nat) (hi : HostInv c now wake h) (lo : Local)
-    (hpre : (lo = .connBegin → h.ph = .rcmd) ∧ (lo = .connEnd → h.ph = .connecting) ∧ (lo = .wake → h.ph = .reading) ∧
-            (lo = .create → h.ph = .new)) :
-    rem c R now (hostStep c sc now h lo) ≤ rem c R now h := by
+theorem rem_hostStep {c : Cfg} {sc : Script} {now wake : Nat} {h : Host} (R K : Nat) (hi : HostInv c now wake h)
+    (hw : wake ≤ now + WDOG_POLL) (lo : Local) (hpre : LocalPre h lo) (hd : DHost now h) (hm : MInv sc K h)
+    (hlife : ∀ l, sc.life = some l → l ≤ K) :
+    rem c R K now (hostStep c sc now h lo) ≤ rem c R K now h := by
   cases lo with
   | create =>
-    have hp := hpre.2.2.2 rfl
+    have hp := hpre.2.2.2.1 rfl
     simp [rem, hostStep, hp]
   | connBegin =>
     have hp := hpre.1 rfl
@@ -65,92 +89,76 @@ theorem rem_hostStep {c : Cfg} {sc : Script} {now wake : Nat} {h : Host} (R : Na
     simp [rem, hostStep, hp]; omega
   | connEnd =>
     have hp := hpre.2.1 rfl
+    have hd0 := hd.pre (Or.inr (Or.inr hp))
     simp only [hostStep]
     split
-    · simp [rem, hp]
+    · simp [rem, hp, hd0]
     · split
-      · let h1 : Host := { h with conn := now, ph := .reading }
+      · let h1 : Host := { h with conn := now, ph := .reading, death := sc.life.map (now + ·) }
         have hf := pollRound_frame now h1
+        have htd := pollRound_td now h1
         rcases pollRound_ph now h1 with hq | hq
-        · have : rem c R now (h1.pollRound now) = now + R - now := by
+        · have : rem c R K now (h1.pollRound now) = (now + R - now) + K := by
             simp only [rem, hq.1, hf.2.2.1, h1]
-          rw [this]; simp [rem, hp]
-        · have : rem c R now (h1.pollRound now) = 0 := by simp only [rem, hq.1]
-          rw [this]; omega
-      · simp [rem, hp]
+          rw [this]; simp only [rem, hp]; omega
+        · have hdeath : (h1.pollRound now).death = sc.life.map (now + ·) := htd.2.1
+          have : rem c R K now (h1.pollRound now) ≤ K := by
+            simp only [rem, hq.1, hdeath]
+            cases hl : sc.life with
+            | none => simp
+            | some l => have := hlife l hl; simp only [Option.map]; omega
+          refine Nat.le_trans this ?_
+          simp only [rem, hp]; omega
+      · simp [rem, hp, hd0]
       · exact Nat.le_refl _
   | wake =>
     have hp := hpre.2.2.1 rfl
-    have round : ∀ (g : Host → Host) (h1 : Host),
-        ((g h1).start = h1.start ∧ (g h1).cbeg = h1.cbeg ∧ (g h1).conn = h1.conn ∧ (g h1).intr = h1.intr) →
-        (((g h1).ph = h1.ph ∧ (g h1).res = h1.res) ∨ ((g h1).ph = .finished ∧ (g h1).res = .done)) →
-        h1.ph = .reading → h1.conn = h.conn → rem c R now (g h1) ≤ rem c R now h := by
-      intro g h1 hf hq h1p h1c
-      rcases hq with hq | hq
-      · simp only [rem, hq.1, h1p, hf.2.2.1, h1c, hp]; exact Nat.le_refl _
-      · simp only [rem, hq.1]; omega
-    have hcore : rem c R now (h.wakeCore c now) ≤ rem c R now h := by
+    have hcl := hi.connLe hp
+    obtain ⟨hci, hcp, _⟩ := hostInv_wakeCore hi hp hw
+    have hcm : MInv sc K (h.wakeCore c now) := minv_wakeCore hm hp
+    have hcore : rem c R K now (h.wakeCore c now) ≤ rem c R K now h := by
       simp only [Host.wakeCore]
       split
       · split
-        · simp [rem]
-        · exact round (Host.pollRound now) _ (pollRound_frame _ _) (pollRound_ph _ _) hp rfl
+        · exact rem_timeout hm hp hcl rfl rfl
+        · exact rem_round hm hp hcl (pollRound_frame _ _).2.2.1 (pollRound_td _ _).2.1
+            (by rcases pollRound_ph now { h with intr := false } with hq | hq
+                · exact Or.inl hq.1
+                · exact Or.inr hq.1)
       · split
-        · exact round (Host.oneRound now) _ (oneRound_frame _ _) (oneRound_ph _ _) hp rfl
-        · exact round (Host.pollRound now) _ (pollRound_frame _ _) (pollRound_ph _ _) hp rfl
-    have hself : ∀ x : Host, rem c R now (x.selfTimeout c now) ≤ rem c R now x := by
-      intro x; simp only [Host.selfTimeout]; split
-      · simp [rem]
+        · exact rem_round hm hp hcl (oneRound_frame _ _).2.2.1 (oneRound_td _ _).2.1
+            (by rcases oneRound_ph now h with hq | hq
+                · exact Or.inl hq.1
+                · exact Or.inr hq.1)
+        · exact rem_round hm hp hcl (pollRound_frame _ _).2.2.1 (pollRound_td _ _).2.1
+            (by rcases pollRound_ph now h with hq | hq
+                · exact Or.inl hq.1
+                · exact Or.inr hq.1)
+    have hself : rem c R K now ((h.wakeCore c now).selfTimeout c now) ≤ rem c R K now (h.wakeCore c now) := by
+      simp only [Host.selfTimeout]; split
+      · rename_i hc
+        exact rem_timeout hcm hc.2.1 (hci.connLe hc.2.1) rfl rfl
       · exact Nat.le_refl _
     simp only [hostStep]
-    exact Nat.le_trans (hself _) hcore
+    exact Nat.le_trans hself hcore
   | scan =>
     simp only [hostStep]; split
     · simp only [rem]; exact Nat.le_refl _
     · exact Nat.le_refl _
+  | destEnd =>
+    simp only [hostStep]; split
+    · simp only [rem]; exact Nat.le_refl _
+    · simp only [rem]; exact Nat.le_refl _
   | other => exact Nat.le_refl _
 
-theorem rem_tick_le (c : Cfg) (R now : Nat) (h : Host) : rem c R (now + 1) h ≤ rem c R now h := by
-  simp only [rem]; split <;> omega
+theorem rem_tick_le (c : Cfg) (R K now : Nat) (h : Host) : rem c R K (now + 1) h ≤ rem c R K now h := by
+  simp only [rem]; split <;> (try split) <;> omega
 
 theorem dstep_fan_none_guard' {s : St} {l : Fan.Label} {f' : Fan.St} (hf : Fan.step s.fan l = some f')
     (hn : dstep s (.fan l) = none) : fanGuard s l = false := by
   cases hg : fanGuard s l with
   | false => rfl
   | true => have := dstep_fan_some hf hg; rw [hn] at this; cases this
-
-/-- whatever happens to target `j` in a step finds it in the phase that operation starts from -/
-theorem local_pre {s s' : St} {l : Label} (hi : TInv s) (h : step s l = some s') {j : Nat} (hj : j < s.hs.length) :
-    (localOf j l = .connBegin → (s.host j).ph = .rcmd) ∧ (localOf j l = .connEnd → (s.host j).ph = .connecting) ∧
-    (localOf j l = .wake → (s.host j).ph = .reading) ∧ (localOf j l = .create → (s.host j).ph = .new) := by
-  have hsy := hi.sync j hj
-  cases l with
-  | tick => simp [localOf]
-  | scan => simp [localOf]
-  | wake k =>
-    obtain ⟨_, hph, _, _⟩ := dstep_wake_facts (by simpa [step] using h)
-    by_cases hkj : k = j
-    · subst hkj; simp [localOf, hph]
-    · simp [localOf, hkj]
-  | fan fl =>
-    obtain ⟨hfs, _, _⟩ := dstep_fan_facts (by simpa [step] using h)
-    cases fl with
-    | d a =>
-      obtain ⟨hcr, _⟩ := Fan.pc_step_d hi.fan hfs
-      cases a with
-      | create k =>
-        obtain ⟨_, _, hidle⟩ := hcr k rfl
-        by_cases hkj : k = j
-        · subst hkj; rw [hidle] at hsy
-          simp [localOf, fanLocal]; simpa [phOK] using hsy
-        · simp [localOf, fanLocal, hkj]
-      | lock | wait | wake _ | relock | unlock | ret => simp [localOf, fanLocal]
-    | w k a =>
-      obtain ⟨hpre, _, _⟩ := Fan.pc_step_w hfs
-      by_cases hkj : k = j
-      · subst hkj; rw [hpre] at hsy
-        cases a <;> simp [localOf, fanLocal] <;> simpa [phOK, Fan.WAct.pre] using hsy
-      · cases a <;> simp [localOf, fanLocal, hkj]
 
 theorem step_now {s s' : St} {l : Label} (h : step s l = some s') (hl : l ≠ .tick) : s'.now = s.now := by
   cases l with
@@ -160,20 +168,24 @@ theorem step_now {s s' : St} {l : Label} (h : step s l = some s') (hl : l ≠ .t
   | tick => exact absurd rfl hl
 
 /-- no operation of any thread increases the potential -/
-theorem potential_dstep {s s' : St} {l : Label} (hi : TInv s) (h : step s l = some s') (hl : l ≠ .tick) :
-    potential s' ≤ potential s := by
+theorem potential_dstep {K : Nat} {s s' : St} {l : Label} (hi : TInv s) (hd : DInv s)
+    (hm : ∀ j, j < s.hs.length → MInv (s.script j) K (s.host j))
+    (hlife : ∀ j, j < s.hs.length → ∀ l, (s.script j).life = some l → l ≤ K)
+    (h : step s l = some s') (hl : l ≠ .tick) :
+    potential K s' ≤ potential K s := by
   have hpar := step_params h
   simp only [potential, hpar.2.2, hpar.1, step_now h hl, script_congr hpar.2.1]
   apply sum_range_le
   intro j hj
   rw [host_local' h hj]
-  exact rem_hostStep _ (hi.hosts j hj) _ (local_pre hi h hj)
+  exact rem_hostStep _ _ (hi.hosts j hj) hi.wakeNow _ (local_pre hi h hj) (hd.host j hj) (hm j hj) (hlife j hj)
 
-/-- when the clock can advance and dsh() has not returned, some target is blocked in connect or in xpoll,
-    not interrupted (it is what the run is waiting for) -/
+/-- when the clock can advance and dsh() has not returned, the run is waiting for some target: one blocked in
+    connect or in xpoll, not interrupted; or one whose teardown waits for a command that is not gone yet -/
 theorem waiting_for {s : St} (hi : TInv s) (hq : quiescent s = true) (hf : 0 < s.fan.f) (hnf : ¬ Final s) :
-    ∃ j, j < s.hs.length ∧ (s.host j).intr = false ∧
-      ((s.host j).ph = .connecting ∨ (s.host j).ph = .reading) := by
+    ∃ j, j < s.hs.length ∧
+      (((s.host j).intr = false ∧ ((s.host j).ph = .connecting ∨ (s.host j).ph = .reading)) ∨
+       ((s.host j).ph = .finished ∧ (s.host j).gone s.now = false)) := by
   obtain ⟨l, hsp, hen⟩ := Fan.progress_inv hi.fan hf hnf
   have hen' := Fan.enabled_of_step hsp hen
   cases l with
@@ -212,7 +224,7 @@ theorem waiting_for {s : St} (hi : TInv s) (hq : quiescent s = true) (hf : 0 < s
       cases a with
       | connectEnd =>
         have hph : (s.host i).ph = .connecting := by simpa [phOK, Fan.WAct.pre] using hsy
-        refine ⟨i, hih, ?_, Or.inl hph⟩
+        refine ⟨i, hih, Or.inl ⟨?_, Or.inl hph⟩⟩
         cases hh : (s.host i).intr with
         | false => rfl
         | true => exact absurd (Or.inl hph) (fun x => hint hh x)
@@ -223,36 +235,48 @@ theorem waiting_for {s : St} (hi : TInv s) (hq : quiescent s = true) (hf : 0 < s
           rcases this with h1 | h1
           · exact h1
           · exact absurd h1 hnfin
-        refine ⟨i, hih, ?_, Or.inr hph⟩
+        refine ⟨i, hih, Or.inl ⟨?_, Or.inr hph⟩⟩
         cases hh : (s.host i).intr with
         | false => rfl
         | true => exact absurd (Or.inr hph) (fun x => hint hh x)
-      | connectBegin | destroyEnd | lock | signal | unlock => simp [fanGuard] at hg
+      | destroyEnd =>
+        have hph : (s.host i).ph = .finished := by simpa [phOK, Fan.WAct.pre] using hsy
+        have hng : (s.host i).gone s.now = false := by
+          simp only [fanGuard, Bool.or_eq_false_iff] at hg; exact hg.2
+        exact ⟨i, hih, Or.inr ⟨hph, hng⟩⟩
+      | connectBegin | lock | signal | unlock => simp [fanGuard] at hg
 
 /-- a second that passes is paid for by a target the run is waiting for -/
-theorem potential_tick {s s' : St} (hi : TInv s) (h : step s .tick = some s') (hf : 0 < s.fan.f) (hnf : ¬ Final s)
-    (hct : 0 < s.cfg.ct)
+theorem potential_tick {K : Nat} {s s' : St} (hi : TInv s) (h : step s .tick = some s') (hf : 0 < s.fan.f)
+    (hnf : ¬ Final s) (hct : 0 < s.cfg.ct)
     (hread : ∀ k, k < s.hs.length → (s.host k).ph = .reading → (s.host k).intr = false →
-      s.now < (s.host k).conn + readB s.cfg (s.script k)) : potential s' + 1 ≤ potential s := by
+      s.now < (s.host k).conn + readB s.cfg (s.script k))
+    (hfin : ∀ k, k < s.hs.length → (s.host k).ph = .finished → ∃ d, (s.host k).death = some d) :
+    potential K s' + 1 ≤ potential K s := by
   obtain ⟨hq, he⟩ := step_tick_facts h
   have hlt : s.now < s.wake := tick_lt_wake h
-  obtain ⟨k, hk, hint, hph⟩ := waiting_for hi hq hf hnf
+  obtain ⟨k, hk, hwf⟩ := waiting_for hi hq hf hnf
   have hho := hi.hosts k hk
-  have : potential s' < potential s := by
+  have : potential K s' < potential K s := by
     rw [he]; simp only [potential]
     apply sum_range_lt (k := k) _ hk
-    · show rem s.cfg (readB s.cfg (s.script k)) (s.now + 1) (s.host k) <
-        rem s.cfg (readB s.cfg (s.script k)) s.now (s.host k)
-      rcases hph with hph | hph
+    · show rem s.cfg (readB s.cfg (s.script k)) K (s.now + 1) (s.host k) <
+        rem s.cfg (readB s.cfg (s.script k)) K s.now (s.host k)
+      rcases hwf with ⟨hint, hph | hph⟩ | ⟨hph, hng⟩
       · have := hho.connDl hph hint hct
         simp only [rem, hph]; omega
       · have := hread k hk hph hint
         simp only [rem, hph]; omega
-    · intro j _; exact rem_tick_le _ _ _ _
+      · obtain ⟨d, hd⟩ := hfin k hk hph
+        have hnd : s.now < d := by
+          simp only [Host.gone, hd] at hng
+          have := of_decide_eq_false hng; omega
+        simp only [rem, hph, hd]; omega
+    · intro j _; exact rem_tick_le _ _ _ _ _
   omega
 
 /-- what a target may cost in all -/
-def budget (c : Cfg) (sc : Script) : Nat := (c.ct + WDOG_POLL) + readB c sc
+def budget (c : Cfg) (K : Nat) (sc : Script) : Nat := (c.ct + WDOG_POLL) + readB c sc + K
 
 theorem range_map_getD {α : Type} (l : List α) (d : α) (g : α → Nat) :
     (List.range l.length).map (fun j => g (l.getD j d)) = l.map g := by
@@ -263,11 +287,11 @@ theorem range_map_getD {α : Type} (l : List α) (d : α) (g : α → Nat) :
     have : i < l.length := by simpa using h1
     simp [List.getD_eq_getElem?_getD, List.getElem?_eq_getElem this]
 
-theorem potential_init (v f c scripts) :
-    potential (init v f c scripts) = (scripts.map (budget c)).sum := by
+theorem potential_init (v f c scripts) (K : Nat) :
+    potential K (init v f c scripts) = (scripts.map (budget c K)).sum := by
   simp only [potential]
   have hl : (init v f c scripts).hs.length = scripts.length := by simp [init]
-  rw [hl, ← range_map_getD scripts defaultScript (budget c)]
+  rw [hl, ← range_map_getD scripts defaultScript (budget c K)]
   congr 1
   apply List.map_congr_left
   intro j hj
@@ -284,19 +308,23 @@ theorem fan_final_stuck {f : Fan.St} (hi : Fan.Inv f) (hfin : Fan.Final f) (l : 
     cases l with
     | d a => cases a <;> simp [Fan.step, hd] at hs
     | w i a =>
-      obtain ⟨hpre, _, _⟩ := Fan.w_step_facts hs
+      obtain ⟨hpre, _, rfl⟩ := Fan.w_step_facts hs
       have hdone := hi.fin (by rw [hd]; rfl) i (Fan.lt_of_getElem? hpre)
       have hp : Fan.pc f i = a.pre := Fan.getD_of_getElem? hpre
       rw [hp] at hdone
       cases a <;> cases hdone
 
-/-- TIMEOUTS BOUND THE RUN: with the connect timeout set, and either the command timeout set or no target whose
-    streams hang after the connect, until dsh() returns the virtual clock never exceeds the sum over the targets
-    of (connect_timeout + WDOG_POLL) + (command_timeout + WDOG_POLL, resp. the scripted end of its streams) -/
-theorem time_bounded {v f c scripts} {ls : List Label} {s : St} (he : Exec (init v f c scripts) ls s) (hf : 0 < f)
-    (hct : 0 < c.ct) (hcov : 0 < c.ut ∨ ∀ j, j < scripts.length → NoHang c (scripts.getD j defaultScript)) :
+/-- TIMEOUTS BOUND THE RUN: with the connect timeout set, either the command timeout set or no target whose
+    streams hang after the connect, and every command ending (`Td`: it exits by itself within `K` of its connect,
+    or it holds stdout open and is gone within `K` of the forwarded SIGTERM), until dsh() returns the virtual
+    clock never exceeds the sum over the targets of (connect_timeout + WDOG_POLL) + (command_timeout + WDOG_POLL,
+    resp. the scripted end of its streams) + K -/
+theorem time_bounded {v f c scripts} {K : Nat} {ls : List Label} {s : St} (he : Exec (init v f c scripts) ls s)
+    (hf : 0 < f) (hct : 0 < c.ct)
+    (hcov : 0 < c.ut ∨ ∀ j, j < scripts.length → NoHang c (scripts.getD j defaultScript))
+    (htd : ∀ j, j < scripts.length → Td c K (scripts.getD j defaultScript)) :
     s.cfg = c ∧ s.fan.f = f ∧
-    (¬ Final s → s.now + potential s ≤ (scripts.map (budget c)).sum) := by
+    (¬ Final s → s.now + potential K s ≤ (scripts.map (budget c K)).sum) := by
   induction he with
   | nil =>
     refine ⟨rfl, by simp [init, Fan.init], fun _ => ?_⟩
@@ -305,6 +333,8 @@ theorem time_bounded {v f c scripts} {ls : List Label} {s : St} (he : Exec (init
     rename_i ls0 s1 l0 s2
     obtain ⟨hc, hff, hb⟩ := ih
     have hti := tinv_exec (tinv_init v f c scripts) he'
+    have hdi := dinv_exec he'
+    have hmi := minv_exec he' htd
     obtain ⟨_, hscr, hlen, hgi⟩ := ginv_exec he'
     have hpar := step_params hs
     have hproj := step_proj hs
@@ -323,6 +353,8 @@ theorem time_bounded {v f c scripts} {ls : List Label} {s : St} (he : Exec (init
         rw [fan_final_stuck hti.fan hfin fl] at h2; cases h2
       | none => rw [hp] at hproj; exact hnf2 (by unfold Final; rw [hproj]; exact hfin)
     have hb1 := hb hnf1
+    have hmi' : ∀ j, j < s1.hs.length → MInv (s1.script j) K (s1.host j) :=
+      fun j hj => hmi j (by rw [← hlen]; exact hj)
     by_cases hl : l0 = .tick
     · subst hl
       obtain ⟨hq, he2⟩ := step_tick_facts hs
@@ -340,10 +372,18 @@ theorem time_bounded {v f c scripts} {ls : List Label} {s : St} (he : Exec (init
             · rw [hc]; simp only [St.script, hscr]; exact hall k hk'
           have := reading_waits hq hk (hgi k hk') hnh hph
           simp only [readB, hu, if_false]; exact this
-      have := potential_tick hti hs (by rw [hff]; exact hf) hnf1 (by rw [hc]; exact hct) hread
+      have := potential_tick (K := K) hti hs (by rw [hff]; exact hf) hnf1 (by rw [hc]; exact hct) hread
+        (fun k hk hph => (hmi' k hk).fin hph)
       have hn : s2.now = s1.now + 1 := by rw [he2]
       omega
-    · have := potential_dstep hti hs hl
+    · have hlife : ∀ j, j < s1.hs.length → ∀ l, (s1.script j).life = some l → l ≤ K := by
+        intro j hj l hl
+        have hj' : j < scripts.length := by rw [← hlen]; exact hj
+        have hsc : s1.script j = scripts.getD j defaultScript := by simp only [St.script, hscr]
+        rcases htd j hj' with ⟨l', hl', hle⟩ | ⟨hn, _⟩
+        · rw [hsc, hl'] at hl; cases hl; exact hle
+        · rw [hsc, hn] at hl; cases hl
+      have := potential_dstep hti hdi hmi' hlife hs hl
       rw [step_now hs hl]; omega
 
 end PdshVerif.Dsh.Timed
